@@ -101,3 +101,10 @@ DOCSTORE_READ = call(r"= RwLock::<DocumentStore>::read\(", name="doc_store.read(
 INDEX_WRITE = call(r"= RwLock::<HnswVectorIndex>::write\(", name="index.write()")
 METAIDX_WRITE = call(r"= RwLock::<(hnsw_backend::)?MetadataInvertedIndex>::write\(", name="metadata_index.write()")
 SEQ_FETCH_ADD = call(r"= Atomic::<u64>::fetch_add\(", name="next_wal_seq.fetch_add")
+
+
+def decides(fn, start, outcomes, atoms, spec, **kw):
+    """DECIDES obligation (vlib/mirdec.py): the condition under which `fn` reaches an outcome, extracted from its MIR,
+    compared with `spec` (SMT over the atoms) by z3.  spec values: formula (iff) | ("=>", f) | ("<=", f)."""
+    from . import mirdec as _MD
+    return lambda F: _MD.decides(F, fn, start, outcomes, atoms, spec, **kw)
